@@ -439,7 +439,7 @@ static void build_teletext_pages(void)
         fetch_vt("vt121 X/26 attributes L2.5", 0x121, VBI_WST_LEVEL_2p5, 25, 0, 1);
         fetch_vt("vt122 X/26 width col 39", 0x122, VBI_WST_LEVEL_2p5, 25, 0, 1);
         fetch_vt("vt123 X/26 width col 39, text in col 0", 0x123, VBI_WST_LEVEL_2p5, 25, 0, 1);
-        fetch_vt("vt124 cyrillic", 0x124, VBI_WST_LEVEL_2p5, 25, 0, 0);
+        fetch_vt("vt124 cyrillic", 0x124, VBI_WST_LEVEL_2p5, 25, 0, 1);
         fetch_vt("vt125 greek", 0x125, VBI_WST_LEVEL_2p5, 25, 0, 0);
 }
 
